@@ -419,3 +419,21 @@ func MentionsPos(msg, file string, line, col int) bool {
 	hasCol := strings.Contains(l, fmt.Sprintf("column %d", col)) || strings.Contains(l, fmt.Sprintf("col %d", col)) || strings.Contains(l, fmt.Sprintf("column: %d", col))
 	return hasLine && hasCol
 }
+
+// QueuePanicKey names the listed dependency finding whose root cause is list.arrayQueue of github.com/moorara/algo
+// (an element enqueued after exactly 64*k elements have been enqueued and all dequeued indexes past the block).
+const QueuePanicKey = "reindex-queue-panic"
+
+var queueOnce sync.Once
+
+// QueuePanic reports whether a recovered panic belongs to that finding: it is identified by its call site (the
+// innermost frames are list.(*arrayQueue).Enqueue / Dequeue of the dependency) and tolerated only while the finding is
+// listed; the KNOWN-FINDING line is printed the first time it is met.
+func QueuePanic(err error) bool {
+	if err == nil || !strings.Contains(err.Error(), "moorara/algo/list.(*arrayQueue") || !Listed(QueuePanicKey) {
+		return false
+	}
+	queueOnce.Do(func() { Announce(QueuePanicKey) })
+	Count("excluded_known_queue_panic", 1)
+	return true
+}
